@@ -382,10 +382,10 @@ impl AsmLine {
             Label::Ref(val) => val,
             Label::Unfilled(_) => panic!("Tried to offset unfilled label"),
         };
-        let (offset, _) = label_pos.overflowing_sub(self.line);
-        let offset = (offset as i16) - 1;
+        let offset = label_pos.wrapping_sub(self.line).wrapping_sub(1) as i16;
         // Must fit in specified offset bits
-        if offset.abs() > 2i16.pow(bits - 1) - if offset > 0 { 1 } else { 0 } {
+        let limit = 2i32.pow(bits - 1);
+        if (offset as i32) < -limit || (offset as i32) >= limit {
             bail!(
                 severity = Severity::Error,
                 r#"Difference between label and label reference is too large: at line {}, referencing line {}
